@@ -131,5 +131,5 @@ func c16MutatedDoc(sh map[string]string) string {
 }
 
 func init() {
-	c16Register("execmutate", func(_ context.Context, sh map[string]string) c16Res { return c16RunExec(c16MutatedDoc(sh)) })
+	c16Register("execmutate", func(ctx context.Context, sh map[string]string) c16Res { return c16RunExec(ctx, c16MutatedDoc(sh)) })
 }
